@@ -3,6 +3,8 @@ package c03
 
 import (
 	"bytes"
+	"errors"
+	"io"
 	"crypto"
 	"crypto/rsa"
 	"crypto/x509"
@@ -110,6 +112,16 @@ func scribblePadding(v int) {
 	}
 }
 
+
+// refusingSigner is a key that cannot be used right now (a token that is locked, an agent that went away): it
+// names the right public key and every Sign call fails.
+type refusingSigner struct{ pub crypto.PublicKey }
+
+func (r refusingSigner) Public() crypto.PublicKey { return r.pub }
+func (r refusingSigner) Sign(io.Reader, []byte, crypto.SignerOpts) ([]byte, error) {
+	return nil, errors.New("signer refuses")
+}
+
 func checkCase(c Case) error {
 	ids := append([]gen.Identity{}, gen.FixedIdents()...)
 	extra, err := gen.ParseIdent(c.ExtraKey, c.ExtraCert)
@@ -198,6 +210,12 @@ func checkCase(c Case) error {
 				bin.Verify(id.Cert)
 			}
 			hx.Class("read_only_calls_on_the_object_before_signing")
+		}
+		if (len(orig)+i)%3 == 0 {
+			// a first attempt with a key that refuses: the attempt that follows on the same object must not be affected
+			if _, ferr := bin.Sign(refusingSigner{id.Priv().Public()}, id.Cert); ferr != nil {
+				hx.Class("failed_sign_attempt_first")
+			}
 		}
 		sig, err := bin.Sign(id.Priv(), id.Cert)
 		if err != nil {
